@@ -220,10 +220,14 @@ impl Scenario for Extract {
         for i in 0..n {
             let kind = r.weighted(&[(6, 0u8), (3, 1), (1, 2)]);
             let mut name = if benign {
-                match r.below(4) {
+                match r.below(6) {
                     0 => format!("f{i}"),
                     1 => format!("dir{}/f{i}", r.below(3)),
                     2 => format!("dir{}/sub{}/f{i}", r.below(3), r.below(2)),
+                    // sibling directories whose names are prefixes / extensions of one another, in any order (legal
+                    // on the host: trailing dot or blank, dash, one more letter) - and the same one level down
+                    3 => format!("{}{}/f{i}", r.pickc(&["rep", "data"]), r.pickc(&["", "", ".", " ", "-old", "x", ".d", "\u{e9}"])),
+                    4 => format!("top/{}{}/f{i}", r.pickc(&["rep", "data"]), r.pickc(&["", "", ".", " ", "-old", "x"])),
                     _ => format!("{}{i}", gen_word(&mut r)),
                 }
             } else {
